@@ -14,7 +14,8 @@ RULE = ("(a) reorder buffer: random and (thorough) all permutations of all subse
         "minishard for bit triples in {0..3}^3, 15% duplicate stores, both buffering strategies, state "
         "compared with the Lean state machine after every operation and after close; (b) whole datasets: "
         "random grids <=4^3 (6^3 thorough), subsets 25-100% (random/head/tail), orders "
-        "sorted/reversed/shuffled, raw and gzip encodings, written twice with different order and "
+        "sorted/reversed/shuffled, raw and gzip encodings, payloads as bytes / bytearray / memoryview / typed uint16 "
+        "buffers, written twice with different order and "
         "strategy, files compared byte for byte with each other and with the Lean Shard.assemble, every "
         "stored and never-stored chunk fetched through a fresh accessor. Trivial = a single stored chunk.")
 ASSUMPTIONS = [
